@@ -182,6 +182,11 @@ pub struct ServerH {
     pub peer_ser: ChunkSerializer,
     pub clock_ms: u64,
     pub clock_backwards: bool,
+    /// Request ids in the order in which the session surfaced them.  Actions and models name a request by its
+    /// POSITION in this list (0 = first surfaced request, ...), events are rewritten accordingly; the numbers the
+    /// library picks are its own business as long as they are fresh (a reused number maps to its old position, which
+    /// the models report).
+    pub ids: Vec<u32>,
 }
 
 #[derive(Clone, Debug, PartialEq)]
@@ -250,7 +255,7 @@ impl ServerH {
             Ok(Ok((s, results))) => {
                 let mut o = empty_obs();
                 collect_server(results, &mut o);
-                Ok((ServerH { s, peer_ser: ChunkSerializer::new(), clock_ms, clock_backwards: false }, o))
+                Ok((ServerH { s, peer_ser: ChunkSerializer::new(), clock_ms, clock_backwards: false, ids: Vec::new() }, o))
             }
         }
     }
@@ -328,10 +333,21 @@ impl ServerH {
             self.input(&bytes, &mut o);
             return o;
         }
+        let real = |ids: &Vec<u32>, k: u32| -> u32 {
+            match ids.get(k as usize) {
+                Some(r) => *r,
+                // a position nothing was surfaced at: a number the session never issued
+                None => ids.iter().cloned().max().unwrap_or(0).wrapping_add(1000).wrapping_add(k),
+            }
+        };
+        let real_id = match a {
+            SAct::Accept { id } | SAct::Reject { id } => real(&self.ids, *id),
+            _ => 0,
+        };
         let sess = &mut self.s;
         let r: Result<Result<Vec<ServerSessionResult>, String>, String> = match a {
-            SAct::Accept { id } => guarded(|| sess.accept_request(*id).map_err(|e| format!("{:?}", e))),
-            SAct::Reject { id } => guarded(|| sess.reject_request(*id, "NetStream.Failed", "rejected").map_err(|e| format!("{:?}", e))),
+            SAct::Accept { .. } => guarded(|| sess.accept_request(real_id).map_err(|e| format!("{:?}", e))),
+            SAct::Reject { .. } => guarded(|| sess.reject_request(real_id, "NetStream.Failed", "rejected").map_err(|e| format!("{:?}", e))),
             SAct::FinishPlaying { sid } => guarded(|| sess.finish_playing(*sid).map(|p| vec![ServerSessionResult::OutboundResponse(p)]).map_err(|e| format!("{:?}", e))),
             SAct::SendAudio { sid, ts, len, droppable } => guarded(|| {
                 sess.send_audio_data(*sid, Bytes::from(media_payload(*ts ^ 8, *len)), RtmpTimestamp::new(*ts), *droppable)
@@ -354,16 +370,41 @@ impl ServerH {
             Ok(Err(e)) => o.err = Some(e),
             Ok(Ok(results)) => collect_server(results, &mut o),
         }
+        self.rename_request_ids(&mut o, 0);
         o
     }
 
     pub fn input(&mut self, bytes: &[u8], o: &mut Obs<ServerSessionEvent>) {
         set_clock_ms(self.clock_ms, self.clock_backwards);
+        let from = o.events.len();
         let sess = &mut self.s;
         match guarded(|| sess.handle_input(bytes).map_err(|e| format!("{:?}", e))) {
             Err(p) => o.panicked = Some(p),
             Ok(Err(e)) => o.err = Some(e),
             Ok(Ok(results)) => collect_server(results, o),
+        }
+        self.rename_request_ids(o, from);
+    }
+
+    /// Rewrites the request ids in the events from position `from` on into positions in `self.ids`.
+    fn rename_request_ids(&mut self, o: &mut Obs<ServerSessionEvent>, from: usize) {
+        for e in o.events.iter_mut().skip(from) {
+            let slot: Option<&mut u32> = match e {
+                ServerSessionEvent::ConnectionRequested { request_id, .. } => Some(request_id),
+                ServerSessionEvent::PublishStreamRequested { request_id, .. } => Some(request_id),
+                ServerSessionEvent::PlayStreamRequested { request_id, .. } => Some(request_id),
+                _ => None,
+            };
+            if let Some(r) = slot {
+                let pos = match self.ids.iter().position(|x| *x == *r) {
+                    Some(p) => p,
+                    None => {
+                        self.ids.push(*r);
+                        self.ids.len() - 1
+                    }
+                };
+                *r = pos as u32;
+            }
         }
     }
 
